@@ -207,6 +207,8 @@ async fn main() {
             let step = (data.len() / 3).max(1);
             let mut chunks: Vec<Chunk> = data.chunks(step).map(|c| Chunk::Data(c.to_vec())).collect();
             if let Fault::TransportErr(k) = fault { let at = k.min(chunks.len()); chunks.insert(at, Chunk::ErrOther); }
+            // a transport may deliver empty chunks anywhere: they are not the end of the stream
+            if r.chance(1, 3) { let at = r.below(chunks.len() as u64 + 1) as usize; chunks.insert(at, Chunk::Data(Vec::new())); }
             // whatever URL the client derives from the name: serve the script below /t/
             *mem.any_target.lock().unwrap() = Some(Resp::Stream(chunks.clone()));
             mem.clear_log();
